@@ -739,3 +739,131 @@ func c08ReadOnce(c *Ctx) {
 		c.R.Unk(rule, "sqlite: type dispatches", "-", "no dispatch on a sqlite.Value's type found")
 	}
 }
+
+// ---- C08.result-text: the binding hands SQLite a real string for every TEXT, the empty one included ---
+
+func init() {
+	register(&Rule{Name: "C08.result-text", Min: 1, Run: c08ResultText,
+		Doc: "in the pinned SQLite binding, the character pointer given to sqlite3_result_text is non-nil on every path: a nil pointer makes the result SQL NULL"})
+	byProp["C08"] = append(byProp["C08"], "C08.result-text")
+	explain["C08"] += " result-text: setContextResult returns TEXT through the binding's Context.ResultText; sqlite3_result_text with a NULL pointer yields SQL NULL whatever the length, so the pointer argument of that call must be non-nil on every path of ResultText (its sibling ResultBlob always passes an allocated buffer). Violated in the pinned binding for the empty string: recorded known finding."
+}
+
+func c08ResultText(c *Ctx) {
+	const rule = "C08.result-text"
+	pk := c.P.ByPath[riyazaliPkg]
+	if pk == nil {
+		c.R.Unk(rule, "binding: loaded", "-", "package "+riyazaliPkg+" not loaded")
+		return
+	}
+	sp := c.P.SSA.Package(pk.Types)
+	var fn *ssa.Function
+	for f := range c.P.AllFuncs {
+		if f.Pkg == sp && f.Name() == "ResultText" && f.Signature.Recv() != nil && len(f.Blocks) > 0 && f.Synthetic == "" {
+			fn = f
+		}
+	}
+	if fn == nil {
+		c.R.Unk(rule, "binding: Context.ResultText", "-", "method not found")
+		return
+	}
+	n := 0
+	var calls []ssa.CallInstruction
+	calls = append(calls, an.Calls(fn)...)
+	for _, af := range fn.AnonFuncs { // cgo wraps the C call into a closure
+		calls = append(calls, an.Calls(af)...)
+	}
+	// where a cgo closure is created / called in fn (the point the captured variable is read at)
+	var closureAt *ssa.BasicBlock
+	bindings := map[*ssa.FreeVar]ssa.Value{}
+	for _, b := range fn.Blocks {
+		for _, in := range b.Instrs {
+			if mc, ok := in.(*ssa.MakeClosure); ok {
+				closureAt = b
+				cf := mc.Fn.(*ssa.Function)
+				for i, fv := range cf.FreeVars {
+					if i < len(mc.Bindings) {
+						bindings[fv] = mc.Bindings[i]
+					}
+				}
+			}
+		}
+	}
+	for _, call := range calls {
+		lbl := calleeLabel(call)
+		if !strings.Contains(lbl, "sqlite3_result_text") {
+			continue
+		}
+		n++
+		args := call.Common().Args
+		// the char* argument: the first pointer-typed argument after the context
+		var ptr ssa.Value
+		for i, a := range args {
+			if i == 0 {
+				continue
+			}
+			if _, ok := a.Type().Underlying().(*types.Pointer); ok {
+				ptr = a
+				break
+			}
+		}
+		mayNil := false
+		if ptr != nil {
+			seen := map[ssa.Value]bool{}
+			var walk func(v ssa.Value, d int)
+			walk = func(v ssa.Value, d int) {
+				if v == nil || seen[v] || d > 8 {
+					return
+				}
+				seen[v] = true
+				switch x := v.(type) {
+				case *ssa.Const:
+					if x.IsNil() {
+						mayNil = true
+					}
+				case *ssa.Phi:
+					for _, e := range x.Edges {
+						walk(e, d+1)
+					}
+				case *ssa.UnOp:
+					if x.Op == token.MUL {
+						addr := x.X
+						readAt := x.Block()
+						if fv, ok := addr.(*ssa.FreeVar); ok {
+							if bnd, ok := bindings[fv]; ok {
+								addr = bnd
+								readAt = closureAt
+							}
+						}
+						if al, ok := addr.(*ssa.Alloc); ok {
+							stores := 0
+							for _, r := range *al.Referrers() {
+								if st, ok := r.(*ssa.Store); ok && st.Addr == ssa.Value(al) {
+									stores++
+									walk(st.Val, d+1)
+									if readAt == nil || !st.Block().Dominates(readAt) {
+										mayNil = true // the zero value survives on some path
+									}
+								}
+							}
+							if stores == 0 {
+								mayNil = true
+							}
+						}
+					}
+				case *ssa.ChangeType:
+					walk(x.X, d+1)
+				case *ssa.Convert:
+					walk(x.X, d+1)
+				}
+			}
+			walk(ptr, 0)
+		}
+		c.R.Cond(ptr != nil && !mayNil, rule, "sqlite.(Context).ResultText: a string is always passed", c.P.Pos(call.Pos()),
+			"the character pointer is allocated on every path",
+			"the character pointer passed to sqlite3_result_text can be nil (the empty string is not allocated): SQLite then returns SQL NULL, so an empty TEXT written to a key or non-key column reads back as NULL with typeof() 'null' ('insert into e values(1,'''')' -> b is NULL)")
+	}
+	if n == 0 {
+		c.R.Unk(rule, "sqlite.(Context).ResultText: a string is always passed", c.P.Pos(fn.Pos()), "no call of sqlite3_result_text found")
+	}
+}
